@@ -13,7 +13,7 @@ import (
 func init() { register("C18", true, runC18) }
 
 func runC18(c *Check) {
-	c.Explanation = "Decides the escaping discipline behind C18 for every name: each operand written to the DOT builder (every fmt.Fprint* on the builder in package graph) is traced back through concatenation, formatting, local struct copies and module callees; any string that can come from a struct field or parameter without passing through escapeForDot/escapeAllForDot is reported with its source (R1; value-format callbacks and fields that are never assigned in non-test code are treated as inert and listed). The callgrind emitter takes every ob=/fl=/fn=/cfl=/cfn= payload from callgrindName with one table per name space (files shared by fl/cfl, functions by fn/cfn), and callgrindName hands out '(n)' only on a table hit and defines new ids as len+1 together with the name (R2). HTML pages are rendered only by html/template (no text/template import) and the typed-string conversions that bypass escaping are exactly HTML(dot's svg) and JS(json.Marshal result) (R3). Also: the base of callgrind's relative positions is advanced on every cost line (R2). Not decided: validity of the document as a whole, the subposition arithmetic of callgrindAddress, newline characters inside callgrind names."
+	c.Explanation = "Decides the escaping discipline behind C18 for every name: each operand written to the DOT builder (every fmt.Fprint* on the builder in package graph) is traced back through concatenation, formatting, local struct copies and module callees; any string that can come from a struct field or parameter without passing through escapeForDot/escapeAllForDot is reported with its source (R1; value-format callbacks and fields that are never assigned in non-test code are treated as inert and listed). The callgrind emitter takes every ob=/fl=/fn=/cfl=/cfn= payload from callgrindName with one table per name space (files shared by fl/cfl, functions by fn/cfn), and callgrindName hands out '(n)' only on a table hit and defines new ids as len+1 together with the name (R2). HTML pages are rendered only by html/template (no text/template import) and the typed-string conversions that bypass escaping are exactly HTML(dot's svg) and JS(json.Marshal result) (R3). Also: the base of callgrind's relative positions is advanced on every cost line (R2). Round-I additions: a nodelet's declaration dominates every use of its name; the absolute callgrind position is the current address; no formatting call has data spliced into its format string. Not decided: validity of the document as a whole, the subposition arithmetic of callgrindAddress, newline characters inside callgrind names."
 	c.dotTaint()
 	c.nodeletIDs()
 	c.dotEdgesDeclared()
